@@ -60,6 +60,7 @@
 import Proofs.CQ
 import Proofs.CQSplit
 import Proofs.CQCounts
+import Proofs.CQInitDiscard
 import Mathlib.NumberTheory.Zsqrtd.GaussianInt
 
 namespace DV.C12
@@ -316,6 +317,35 @@ def C12_counts_glue : Prop :=
       c.measure true = .ok (m.toList.map D8.re) ∧
       ∀ counts, c.getCounts = .ok counts →
         ∀ k x, (k, x) ∈ counts ↔ (m.toList[k]? = some x ∧ x ≠ 0)
+
+/-- **`init_and_discard()` of a well-typed circuit of listed boxes is a normalised distribution**
+    (circuit.py:175-188, any commutative star ring): the layer of `Bits(0)`/`Ket(0)` states and the
+    layer of `Discard`s keep the circuit well typed (each box finds its domain at its offset), the
+    added boxes are listed, so the mixed evaluation succeeds and is trace preserving, with no input
+    and only the circuit's output bits as output — and its entries sum to one.  This is the
+    distribution `get_counts()` and `measure()` read (`C12_counts_glue_partial` below). -/
+theorem init_and_discard_distribution (c : Circuit R) (hWT : WT c.dom c.boxes)
+    (hb : ∀ ob ∈ c.boxes, ob.2.Listed) (hd : Dim2 c.dom) (hc : Dim2 c.cod) :
+    ∃ m, c.initAndDiscard.evalMixed = .ok m ∧ m.TP ∧ m.dom = .unit ∧
+      m.cod = F (bitsOf c.cod) ∧ sumN m.cod.C (fun x => m.f 0 0 0 x 0 0) = 1 :=
+  Circuit.initAndDiscard_distribution c hWT hb hd hc
+
+/-- Non-vacuity: `H`-free but non-trivial — a qubit measured next to a bit that is kept
+    (`Measure() @ Id(bit)`): well typed, listed, on bits and qubits. -/
+example : let c : Circuit R := ⟨[.qubit 2, .bit 2], [(0, ⟨false, .measure 1 true false⟩)]⟩
+    WT c.dom c.boxes ∧ (∀ ob ∈ c.boxes, ob.2.Listed) ∧ Dim2 c.dom ∧ Dim2 c.cod := by
+  refine ⟨⟨rfl, trivial⟩, ?_, ?_, ?_⟩
+  · intro ob h
+    simp only [List.mem_cons, List.not_mem_nil, or_false] at h
+    subst h
+    exact .plain _ (.measure 1 true false)
+  · intro w h
+    simp only [List.mem_cons, List.not_mem_nil, or_false] at h
+    rcases h with rfl | rfl <;> simp
+  · intro w h
+    have : w ∈ ([.bit 2, .bit 2] : WTy) := h
+    simp only [List.mem_cons, List.not_mem_nil, or_false] at this
+    rcases this with rfl | rfl <;> simp
 
 omit [CommRing R] [StarRing R] in
 /-- **counts glue, the part that is proved** (`C12_counts_glue_partial`): whenever the
